@@ -68,11 +68,11 @@ var allow = []string{
 }
 
 type Loaded struct {
-	Prog    *ssa.Program
-	P       *interp.Program
-	HPkg    *ssa.Package
-	LoadS   float64
-	NPkgs   int
+	Prog  *ssa.Program
+	P     *interp.Program
+	HPkg  *ssa.Package
+	LoadS float64
+	NPkgs int
 }
 
 func load() (*Loaded, error) {
